@@ -245,6 +245,13 @@ class Summariser:
         for n in ast.walk(fn.node):
             if isinstance(n, (ast.Yield, ast.YieldFrom, ast.Await)):
                 return False
+            # a `return` inside a loop cannot be spliced into the caller's path structure
+            if isinstance(n, (ast.For, ast.While, ast.AsyncFor)):
+                for sub in ast.walk(n):
+                    if isinstance(sub, ast.Return):
+                        return False
+            if isinstance(n, (ast.FunctionDef, ast.AsyncFunctionDef, ast.Lambda)) and n is not fn.node:
+                pass
         return True
 
 
